@@ -42,6 +42,13 @@ func (j *Journal) Wrap(name string) func(db.DB) db.DB {
 	return func(inner db.DB) db.DB {
 		j.mu.Lock()
 		j.stores[name] = inner
+		if j.on {
+			// recording already: a store that joins now starts from its current content; a store that is
+			// re-opened under the same name keeps its snapshot zero (its writes so far are in the journal)
+			if _, seen := j.snap0[name]; !seen {
+				j.snap0[name] = scanDB(inner)
+			}
+		}
 		j.mu.Unlock()
 		return &jdb{DB: inner, j: j, name: name}
 	}
@@ -84,6 +91,9 @@ func (j *Journal) Start() {
 	}
 	j.on = true
 }
+
+// On reports whether the journal is recording.
+func (j *Journal) On() bool { j.mu.Lock(); defer j.mu.Unlock(); return j.on }
 
 func (j *Journal) Stop() { j.mu.Lock(); j.on = false; j.mu.Unlock() }
 
